@@ -319,7 +319,8 @@ func (trans *FillTransform) fill(ctx context.Context, errs *errno.Errs) {
 		}
 
 		// fast path, return chunk directly if there is only one trunk and group by time only
-		if idx == 0 && trans.nextChunk == nil && len(trans.opt.Dimensions) == 0 && trans.opt.Fill == influxql.NullFill {
+		// (not when a count column has to be filled with 0: the chunk would go out with nulls)
+		if idx == 0 && trans.nextChunk == nil && len(trans.opt.Dimensions) == 0 && trans.opt.Fill == influxql.NullFill && trans.fillVal == nil {
 			windowStart, _ := trans.opt.Window(trans.opt.StartTime)
 			_, windowEnd := trans.opt.Window(trans.opt.EndTime)
 			if (windowEnd-windowStart)/trans.opt.Interval.Duration.Nanoseconds() == int64(trans.bufChunk.Len()) {
